@@ -60,8 +60,19 @@ def generate():
         prio[m.group(1)] = int(m.group(2))
         order.append((m.group(1), int(m.group(2))))
 
+    # binary_class (normalisation applied to both arguments of check_composition)
+    bc = fn_body(src, "binary_class")
+    bc_arms = re.findall(r"SecondaryDefinition::(\w+)\s*=>\s*SecondaryDefinition::(\w+)", bc)
+    if not re.search(r"\bd\s*=>\s*d\b", bc) or not bc_arms:
+        raise ValueError("binary_class: unrecognised body")
+    for x, y in bc_arms:
+        if x not in secs or y not in secs:
+            raise ValueError("binary_class: unknown secondary")
+
     # check_composition
     b = fn_body(src, "check_composition")
+    if not (re.search(r"let previous = binary_class\(previous\)", b) and re.search(r"let current = binary_class\(current\)", b)):
+        raise ValueError("check_composition: does not normalise its arguments with binary_class")
     m = re.search(r"match \(previous, current\)\s*\{", b)
     if not m:
         raise ValueError("check_composition: match not found")
@@ -134,8 +145,12 @@ def generate():
     t += "  end.\n\n"
     t += "(* the insert statements in source order (for documentation / duplicate detection) *)\n"
     t += "Definition priority_inserts : list (definition * N) :=\n  [" + "; ".join("(D_%s, %d)" % (d, n) for d, n in order) + "].\n\n"
+    t += "Definition binary_class (s : secondary) : secondary :=\n  match s with\n"
+    for x, y in bc_arms:
+        t += "  | S_%s => S_%s\n" % (x, y)
+    t += "  | d => d\n  end.\n\n"
     t += "(* check_composition: [true] = composition error *)\n"
-    t += "Definition forbidden (previous current : secondary) (check_for_list : bool) : bool :=\n  match previous, current with\n"
+    t += "Definition forbidden (previous current : secondary) (check_for_list : bool) : bool :=\n  match binary_class previous, binary_class current with\n"
     for a, c in guarded:
         t += "  | S_%s, S_%s => negb check_for_list\n" % (a, c)
     for a, c in plain:
